@@ -62,7 +62,7 @@ fn gen_command(rng: &mut Rng, conn_id: u64) -> Vec<u8> {
         10 => {
             // invalid / malformed THROTTLE
             let key = format!("c{}bad", conn_id);
-            match rng.below(11) {
+            match rng.below(12) {
                 0 => array(&[bulk(b"THROTTLE"), bulk(key.as_bytes()), int(3), int(1)]),
                 1 => array(&[bulk(b"THROTTLE"), bulk(key.as_bytes()), int(3), int(1), int(60), int(1), int(9)]),
                 2 => array(&[bulk(b"THROTTLE"), bulk(key.as_bytes()), bulk(b"abc"), int(1), int(60)]),
@@ -71,6 +71,14 @@ fn gen_command(rng: &mut Rng, conn_id: u64) -> Vec<u8> {
                 5 => array(&[bulk(b"THROTTLE"), bulk(key.as_bytes()), int(3), int(1), int(60), int(-2)]),
                 6 => array(&[bulk(b"THROTTLE"), b"$-1\r\n".to_vec(), int(3), int(1), int(60)]),
                 7 => array(&[bulk(b"THROTTLE"), int(5), int(3), int(1), int(60)]),
+                8 => {
+                    // the same not-a-bulk-string key five times (integer / null / array key): refused five times, whatever came before
+                    let k: Vec<u8> = match rng.below(3) { 0 => int(4000 + conn_id as i64), 1 => b"$-1\r\n".to_vec(), _ => array(&[bulk(key.as_bytes())]) };
+                    let one = array(&[bulk(b"THROTTLE"), k, int(3), int(1), int(9_000_000)]);
+                    let mut five = Vec::new();
+                    for _ in 0..5 { five.extend_from_slice(&one); }
+                    five
+                }
                 _ => {
                     // client text with line breaks / frame look-alikes in every argument position
                     let evil: &[&[u8]] = &[b"10\r\n", b"+PONG\r\n+PONG", b"1\r\n:1", b"\r\n", b"7\n", b"x\r\n$-1"];
